@@ -28,9 +28,15 @@ func genGrp(r *Rng, tier string) *Enc {
 	df := dataframe.NewDataFrame()
 	nk := r.Range(1, 3)
 	knames := []string{"p", "q", "s"}[:nk]
+	if r.Chance(5) {
+		knames = []string{"", "q", "s"}[:nk] // a column whose name is the empty string is a column like any other
+	}
 	collide := r.Chance(12) // the K1 input class is generated at a low rate
 	for _, kn := range knames {
 		alpha := []any{1, 2, "a", "b", nil, true, int64(1)}
+		if r.Chance(6) {
+			alpha = []any{"NaN", "nan", "Inf", "1", "1.0", "a"} // texts that SPELL numbers are still just texts
+		}
 		if collide {
 			alpha = grpKeyAlpha
 		}
@@ -47,6 +53,9 @@ func genGrp(r *Rng, tier string) *Enc {
 	vnames := []string{"v", "w", "u"}[:r.Range(0, 3)]
 	if r.Chance(10) {
 		vnames = []string{" v", "w ", "u"}[:r.Range(1, 3)] // names with edge white space (a CSV header "k, v" produces them)
+	}
+	if len(vnames) > 0 && knames[0] != "" && r.Chance(6) {
+		vnames = append([]string{""}, vnames[1:]...) // a VALUE column whose name is the empty string
 	}
 	for ci, vn := range vnames {
 		d := make([]any, n)
@@ -70,6 +79,9 @@ func genGrp(r *Rng, tier string) *Enc {
 				// cycle deterministically through every numeric width
 				w := allWidths[(i+ci+r.Intn(2))%len(allWidths)]
 				d[i] = scaleNum(w, r.Range(-3, 6))
+				if _, isF32 := w.(float32); isF32 && r.Chance(30) {
+					d[i] = Pick(r, []float32{0.1, 1.1, 16777.217}) // not short decimals once widened to float64
+				}
 			}
 		}
 		df.Columns[vn] = &dataframe.Column[any]{Name: vn, Data: d}
